@@ -132,7 +132,12 @@ static void worker(int tid, int nthreads, const char* path, unsigned long long s
         deserializeJson(filtered, sharedJson, DeserializationOption::Filter(sv["f"]));
         std::string s3;
         serializeJson(filtered, s3);
-        bool cmp = sv == mine.as<JsonVariantConst>() && sv["list"][1] == 2 && sv.size() == shared->size();
+        size_t manyN = sv["many"].size();
+        long long sum = 0;
+        for (size_t k = (size_t)tid; k < manyN; k += 37) sum += sv["many"][k].as<long long>() % 1000;
+        (void)sum;
+        bool cmp = sv == mine.as<JsonVariantConst>() && sv["list"][1] == 2 && sv.size() == shared->size() &&
+                   manyN == (size_t)(3 * ARDUINOJSON_POOL_CAPACITY + 7) && sv["many"][manyN - 1] == (int)(manyN - 1);
         g_shared++;
         if (s != sharedJson || s2 != sharedJson || s3 != filteredExpect || !cmp) {
           if (g_bad++ < 5) printf("MISMATCH thread=%d shared document read differs\n", tid);
@@ -160,6 +165,15 @@ int main(int argc, char** argv) {
   unsigned long long seed = strtoull(argv[1], nullptr, 10);
   JsonDocument shared;
   deserializeJson(shared, "{\"list\":[1,2,3.5,\"x\"],\"name\":\"shared\",\"big\":1099511627776,\"f\":{\"list\":[true],\"name\":true}}");
+  // the shared document spans several pools (more slots than ARDUINOJSON_POOL_CAPACITY): readers walk across them
+  {
+    JsonArray many = shared["many"].to<JsonArray>();
+    for (int i = 0; i < 3 * ARDUINOJSON_POOL_CAPACITY + 7; i++) {
+      if (i % 5 == 0) many.add(std::string("s") + std::to_string(i % 11));
+      else if (i % 5 == 1) many.add(1099511627776LL + i);
+      else many.add(i);
+    }
+  }
   std::string sharedJson;
   serializeJson(shared, sharedJson);
   JsonDocument fe;
